@@ -2,7 +2,7 @@
 From Coq Require Import ZArith Reals List Lia Lra.
 From Flocq Require Import Core BinarySingleNaN.
 From GCL Require Proofs.TablesOk.
-From GCL Require Import Base.F64 Base.F64Facts Model.Measure Model.Limits Proofs.VegasSafe Proofs.AimdProofs Proofs.GradSafe.
+From GCL Require Import Base.F64 Base.F64Facts Model.Measure Model.Limits Proofs.VegasSafe Proofs.AimdProofs Proofs.GradSafe Proofs.Grad2Safe.
 Import ListNotations.
 
 (* AIMD: for every sample list the limit stays >= 1 and <= initial + (#samples) * increase
@@ -29,6 +29,15 @@ Theorem C04_gradient_safe g Mx samples : GInv g Mx -> Forall gsample_ok samples 
   exists g', grad_run g samples = Some g' /\ GInv g' Mx /\ (g_min g' <= grad_est g' <= Mx)%Z.
 Proof. exact (grad_run_safe g Mx samples). Qed.
 Print Assumptions C04_gradient_safe.
+
+(* Gradient2: for every sample list with 0 <= rtt <= 2^62 (zero RTTs included), any in-flight and drop flags: the stored estimate
+   stays finite within [min, max] (so the reported integer is within [min, Mx]) and the long-term exponential average stays finite
+   within [0, 2^63] - no sample poisons it; smoothing in [0,1], long window in [1, 2^40], constant queue allowance 4. *)
+Theorem C04_gradient2_safe g Mx samples : G2Inv g Mx -> Forall gsample_ok samples ->
+  let g' := fold_left (fun a s => o_st (grad2_step a s)) samples g in
+  G2Inv g' Mx /\ (h_min g' <= grad2_est g' <= Mx)%Z.
+Proof. exact (grad2_run_safe g Mx samples). Qed.
+Print Assumptions C04_gradient2_safe.
 
 (* non-vacuity: the state built by NewDefaultVegasLimit (initial 20, max 1000, smoothing 1.0) satisfies the invariant *)
 Example C04_vegas_default_ok jit : VInv (vegas_init (-1) (-1) (-1) (of_int (-1)) jit) 1000.
